@@ -289,11 +289,20 @@ impl Chain {
     /// or fails signature verification.
     pub fn verify_chain(&self) -> Result<()> {
         let height = self.height();
-        if height == 0 {
-            return Ok(()); // Only genesis, nothing to verify
-        }
-
         let mut prev_block = self.get_genesis()?.ok_or(ChainError::EmptyChain)?;
+
+        // The genesis block is not covered by a signature: pin its body.
+        if prev_block.header.height != 0
+            || prev_block.header.prev_hash != [0u8; 32]
+            || !prev_block.transactions.is_empty()
+            || !prev_block.verify_tx_root()
+            || !prev_block.header.signature.is_empty()
+        {
+            return Err(ChainError::ValidationFailed(
+                "genesis block has been altered".to_string(),
+            ));
+        }
+        self.verify_cosignatures(&prev_block)?;
 
         for h in 1..=height {
             let block = self.get_block_at(h)?.ok_or(ChainError::BlockNotFound(h))?;
@@ -302,9 +311,30 @@ impl Chain {
             if let Some(ref registry) = self.validator_registry {
                 block.header.verify_signature(registry)?;
             }
+            self.verify_cosignatures(&block)?;
             prev_block = block;
         }
 
+        Ok(())
+    }
+
+    /// Validator co-signatures are outside the proposer's signature: each one must
+    /// name this block and verify under a registered validator key.
+    fn verify_cosignatures(&self, block: &Block) -> Result<()> {
+        let Some(ref registry) = self.validator_registry else {
+            return Ok(());
+        };
+        let block_hash = block.hash();
+        for sig in &block.signatures {
+            let key = registry.get(&sig.validator).ok_or_else(|| {
+                ChainError::ValidationFailed(format!("unknown co-signer: {}", sig.validator))
+            })?;
+            if sig.block_hash != block_hash || key.verify(&block_hash, &sig.signature).is_err() {
+                return Err(ChainError::ValidationFailed(
+                    "invalid validator co-signature".to_string(),
+                ));
+            }
+        }
         Ok(())
     }
 
